@@ -211,3 +211,102 @@ func GRPCMatrix() *m.Design {
 		Services: []*m.Service{{Name: "grpcmatrix", HasGRPC: true, Methods: []*m.Method{kinds, aliases, place, meta}}, health},
 		Features: []string{"fixed-design:grpc-matrix", "alias", "alias-array-element", "alias-map-key", "alias-map-value", "nested-array", "required-nested-message", "required-array", "required-map", "request-metadata", "sparse-tags"}}
 }
+
+// DefaultsMatrix is a fixed design about default values: defaults declared on
+// the attribute and defaults declared on a primitive alias type (inherited by
+// every attribute of that type), at the top level, in a nested user type and
+// in array elements, for request and response bodies, plus alias-typed
+// attributes in query and header.
+func DefaultsMatrix() *m.Design {
+	obj := func(fs ...*m.Field) *m.Attr { return &m.Attr{Type: &m.Type{Kind: m.Object, Fields: fs}} }
+	fld := func(n string, a *m.Attr, req bool) *m.Field { return &m.Field{Name: n, Attr: a, Required: req} }
+	arr := func(e *m.Attr) *m.Attr { return &m.Attr{Type: &m.Type{Kind: m.Array, Elem: e}} }
+	withDef := func(a *m.Attr, v value.V) *m.Attr { a.Default = &v; return a }
+	fromAlias := func(name string, v value.V) *m.Attr {
+		a := m.UserRef(name)
+		a.Default, a.DefaultFromAlias = &v, true
+		return a
+	}
+	prio := &m.UserType{Name: "Priority", Var: "vprio", Attr: withDef(&m.Attr{Type: &m.Type{Kind: m.Int}, V: &m.Validation{Min: fp(0), Max: fp(9)}}, value.Int(3))}
+	label := &m.UserType{Name: "Label", Var: "vlabel", Attr: withDef(m.Prim(m.String), value.Str("none"))}
+	ratio := &m.UserType{Name: "Ratio", Var: "vratio", Attr: withDef(m.Prim(m.Float64), value.Float(0.5))}
+	step := &m.UserType{Name: "Step", Var: "vstep", Attr: obj(fld("name", m.Prim(m.String), true), fld("priority", fromAlias("Priority", value.Int(3)), false), fld("weight", withDef(m.Prim(m.Int), value.Int(5)), false))}
+	task := func() *m.Attr {
+		return obj(fld("id", m.Prim(m.String), true),
+			fld("priority", fromAlias("Priority", value.Int(3)), false),
+			fld("label", fromAlias("Label", value.Str("none")), false),
+			fld("ratio", fromAlias("Ratio", value.Float(0.5)), false),
+			fld("weight", withDef(m.Prim(m.Int), value.Int(5)), false),
+			fld("done", withDef(m.Prim(m.Boolean), value.Bool(true)), false),
+			fld("first", m.UserRef("Step"), false),
+			fld("steps", arr(m.UserRef("Step")), false))
+	}
+	body := &m.Method{Name: "body", Payload: task(), Result: task(), HTTP: &m.HTTPEndpoint{Routes: []m.Route{{Verb: "POST", Path: "/defaults/body"}}}}
+	params := &m.Method{Name: "params", Payload: obj(fld("id", m.Prim(m.String), true),
+		fld("priority", fromAlias("Priority", value.Int(3)), false), fld("label", fromAlias("Label", value.Str("none")), false), fld("weight", withDef(m.Prim(m.Int), value.Int(5)), false)),
+		Result: obj(fld("ok", m.Prim(m.Boolean), true)),
+		HTTP: &m.HTTPEndpoint{Routes: []m.Route{{Verb: "GET", Path: "/defaults/params/{id}"}}, Path: []m.Mapping{{Attr: "id"}},
+			Query: []m.Mapping{{Attr: "priority", Wire: "prio"}, {Attr: "weight"}}, Headers: []m.Mapping{{Attr: "label", Wire: "X-Label"}}}}
+	return &m.Design{API: m.API{Name: "defaults", Title: "Defaults matrix"},
+		Types:    []*m.UserType{prio, label, ratio, step},
+		Services: []*m.Service{{Name: "defaults", HasHTTP: true, Methods: []*m.Method{body, params}}},
+		Features: []string{"fixed-design:defaults-matrix", "alias", "alias-type-default", "default-inherited-from-alias", "default", "nested-default"}}
+}
+
+// KindMatrix is a fixed design with one small method per (primitive kind,
+// parameter location, required/optional/defaulted) cell: the method carries
+// that single attribute and nothing else, so that code generated for one cell
+// cannot lean on declarations another parameter of the same method brings
+// along. Arrays of every kind travel in query and header as well.
+func KindMatrix() *m.Design {
+	obj := func(fs ...*m.Field) *m.Attr { return &m.Attr{Type: &m.Type{Kind: m.Object, Fields: fs}} }
+	fld := func(n string, a *m.Attr, req bool) *m.Field { return &m.Field{Name: n, Attr: a, Required: req} }
+	kinds := []struct {
+		k    m.Kind
+		name string
+		def  value.V
+	}{
+		{m.Boolean, "bool", value.Bool(true)}, {m.Int, "int", value.Int(-7)}, {m.Int32, "int32", value.Int(32)}, {m.Int64, "int64", value.Int(-64)},
+		{m.UInt, "uint", value.Uint(7)}, {m.UInt32, "uint32", value.Uint(32)}, {m.UInt64, "uint64", value.Uint(64)},
+		{m.Float32, "float32", value.Float(1.5)}, {m.Float64, "float64", value.Float(-2.25)}, {m.String, "string", value.Str("dflt")},
+	}
+	var methods []*m.Method
+	add := func(name string, payload *m.Attr, h *m.HTTPEndpoint) {
+		if len(h.Routes) == 0 {
+			h.Routes = []m.Route{{Verb: "GET", Path: "/kinds/" + name}}
+		}
+		methods = append(methods, &m.Method{Name: name, Payload: payload, HTTP: h})
+	}
+	for _, k := range kinds {
+		for _, loc := range []string{"q", "h"} {
+			for _, mode := range []string{"req", "opt", "def"} {
+				a := m.Prim(k.k)
+				if mode == "def" {
+					dv := k.def
+					a.Default = &dv
+				}
+				h := &m.HTTPEndpoint{}
+				if loc == "q" {
+					h.Query = []m.Mapping{{Attr: "amount", Wire: "v"}}
+				} else {
+					h.Headers = []m.Mapping{{Attr: "amount", Wire: "X-Val"}}
+				}
+				add(loc+"_"+k.name+"_"+mode, obj(fld("amount", a, mode == "req")), h)
+			}
+			// arrays
+			arr := &m.Attr{Type: &m.Type{Kind: m.Array, Elem: m.Prim(k.k)}}
+			h := &m.HTTPEndpoint{}
+			if loc == "q" {
+				h.Query = []m.Mapping{{Attr: "amounts", Wire: "v"}}
+			} else {
+				h.Headers = []m.Mapping{{Attr: "amounts", Wire: "X-Vals"}}
+			}
+			add(loc+"_"+k.name+"_array", obj(fld("amounts", arr, false)), h)
+		}
+		// path segment (always required)
+		add("p_"+k.name, obj(fld("amount", m.Prim(k.k), true)), &m.HTTPEndpoint{Routes: []m.Route{{Verb: "GET", Path: "/kinds/p_" + k.name + "/{amount}"}}, Path: []m.Mapping{{Attr: "amount"}}})
+	}
+	return &m.Design{API: m.API{Name: "kinds", Title: "Kind matrix"},
+		Services: []*m.Service{{Name: "kinds", HasHTTP: true, Methods: methods}},
+		Features: []string{"fixed-design:kind-matrix", "typed-params", "single-parameter-methods", "array-params", "default"}}
+}
